@@ -22,6 +22,7 @@ pub struct VariablesInAllowedPosition<'a> {
     variable_usages: HashMap<Scope<'a>, Vec<(&'a str, &'a Type)>>,
     variable_defs: HashMap<Scope<'a>, Vec<&'a VariableDefinition>>,
     current_scope: Option<Scope<'a>>,
+    operations_count: usize,
 }
 
 impl<'a> VariablesInAllowedPosition<'a> {
@@ -31,6 +32,7 @@ impl<'a> VariablesInAllowedPosition<'a> {
             variable_usages: HashMap::new(),
             variable_defs: HashMap::new(),
             current_scope: None,
+            operations_count: 0,
         }
     }
 
@@ -94,7 +96,9 @@ impl<'a> VariablesInAllowedPosition<'a> {
 
 #[derive(Debug, Clone, PartialEq, Eq, Hash)]
 pub enum Scope<'a> {
-    Operation(Option<&'a str>),
+    /// An operation, told apart from the others by its index in the document:
+    /// operation names may be missing or repeated.
+    Operation(usize, Option<&'a str>),
     Fragment(&'a str),
 }
 
@@ -131,7 +135,11 @@ impl<'a> OperationVisitor<'a, ValidationErrorContext> for VariablesInAllowedPosi
         _: &mut ValidationErrorContext,
         operation_definition: &'a crate::static_graphql::query::OperationDefinition,
     ) {
-        self.current_scope = Some(Scope::Operation(operation_definition.node_name()));
+        self.current_scope = Some(Scope::Operation(
+            self.operations_count,
+            operation_definition.node_name(),
+        ));
+        self.operations_count += 1;
     }
 
     fn enter_fragment_spread(
